@@ -56,6 +56,7 @@ type Case struct {
 	Workers   int        `json:"workers"`
 	FailFirst bool       `json:"fail_first"`
 	Plan      sched.Plan `json:"plan"`
+	Dep       bool       `json:"dep,omitempty"`  // the first root action of cascade 0 returns only after the first root action of cascade 1 has started (needs >= 2 cascades, >= 2 workers; Go route)
 	ECAL      bool       `json:"ecal,omitempty"` // route: the first cascade as ECAL sinks, waited for with addEventAndWait (fail-on-first-error is always on there)
 }
 
@@ -141,6 +142,7 @@ func runCase(c Case) (fail *hx.Failure) {
 				}
 				cr.recs[name] = rec
 				rs, ni := rs, ni
+				waitsFor := c.Dep && ci == 0 && ni == 0 && ri == 0 && len(c.Cascades) >= 2 && c.Workers >= 2
 				err := proc.AddRule(&engine.Rule{
 					Name: name, KindMatch: []string{strings.Join(kind(ci, ni), ".")}, ScopeMatch: []string{}, Priority: ri,
 					Action: func(p engine.Processor, m engine.Monitor, e *engine.Event, tid uint64) error {
@@ -148,6 +150,14 @@ func runCase(c Case) (fail *hx.Failure) {
 						atomic.StoreInt64(&rec.start, atomic.AddInt64(&clock, 1))
 						for i := 0; i < rs.Yield; i++ {
 							time.Sleep(time.Microsecond)
+						}
+						if waitsFor {
+							// terminates as soon as a worker picks up the other cascade's root event
+							// (a worker is available: this action occupies one of >= 2); bounded anyway
+							other := runs[1].recs[ruleName(1, 0, 0)]
+							for dl := time.Now().Add(depBound); atomic.LoadInt64(&other.start) == 0 && time.Now().Before(dl); {
+								time.Sleep(50 * time.Microsecond)
+							}
 						}
 						for k, ch := range rs.Children {
 							prio := 0
@@ -242,6 +252,9 @@ func runCase(c Case) (fail *hx.Failure) {
 	return nil
 }
 
+// depBound bounds the wait of a dependent action (it outlasts every stuck verdict).
+const depBound = 40 * time.Second
+
 func waitReturn(c Case, cr *cascadeRun, proc engine.Processor, s *sched.Sched, clock *int64) *hx.Failure {
 	select {
 	case <-cr.done:
@@ -276,6 +289,15 @@ func waitReturn(c Case, cr *cascadeRun, proc engine.Processor, s *sched.Sched, c
 		case <-cr.done:
 			return nil
 		default:
+		}
+		if a == b && b == d && s.ActiveHolds() == 0 && d.queue > 0 && d.idle >= 1 && d.idle < d.total && time.Since(start) >= stuckBound/2 {
+			// a task is queued and a worker is idle, nothing moves and nothing is held: the task is never picked
+			// up (the busy workers are actions waiting for exactly that task)
+			if stuckBound > 3*time.Second {
+				stuckBound = 3 * time.Second
+			}
+			return hx.Failf("queued-task-not-picked-up", "cascade %d: AddEventAndWait still blocked after %v; queue=%d with %d of %d workers idle in three samples 500 ms apart, no hold active; hook counters %v",
+				cr.idx, time.Since(start).Round(time.Millisecond), d.queue, d.idle, d.total, s.Counts())
 		}
 		if a == b && b == d && s.ActiveHolds() == 0 && d.idle == d.total && d.total >= 1 && time.Since(start) >= stuckBound/2 {
 			if stuckBound > 3*time.Second {
@@ -572,6 +594,9 @@ func record(c Case, s *sched.Sched) {
 		classes = append(classes, "plan.hold-timed-out")
 	}
 	key := fmt.Sprint(c)
+	if c.Dep && !c.ECAL && len(c.Cascades) >= 2 && c.Workers >= 2 {
+		classes = append(classes, "dep.root-action-waits-for-other-cascade")
+	}
 	hx.E.Case(nt, key, classes...)
 	if nt {
 		hx.E.Sample(key, c)
@@ -635,6 +660,9 @@ func genCase(rt *rapid.T) Case {
 		c.Plan = append(c.Plan, sched.Rule{Point: "pool.addtask.pushed", Nth: 1 + pick(6, "dn2"), Action: "hold", Until: "pool.gettask.empty", Plus: 1, Timeout: 50})
 	case 3: // a worker between empty dequeue and wait while events are added
 		c.Plan = append(c.Plan, sched.Rule{Point: "pool.gettask.empty", Nth: 1 + pick(8, "dn3"), Action: "hold", Until: "pool.addtask.signalled", Plus: 1, Timeout: 100})
+	case 5: // a woken worker is kept from its dequeue until the next task has been pushed behind the first one
+		c.Plan = append(c.Plan, sched.Rule{Point: "pool.idle.woke", Nth: 1 + pick(3, "dn5"), Action: "hold", Until: "pool.addtask.pushed", Plus: 1, Timeout: 100})
+		c.Dep = true
 	case 4: // after processing, before the monitor finishes
 		c.Plan = append(c.Plan, sched.Rule{Point: "task.run.processed", Nth: 1 + pick(6, "dn4"), Action: "hold", Until: "tq.pop", Plus: 1 + pick(2, "dp4"), Timeout: 50})
 	}
@@ -654,6 +682,21 @@ func genCase(rt *rapid.T) Case {
 		c.Plan = append(c.Plan, r)
 	}
 	c.ECAL = pick(5, "route") == 0
+	if pick(4, "dep") == 0 {
+		c.Dep = true
+	}
+	if c.Dep && (len(c.Cascades) < 2 || c.Workers < 2) {
+		// make the dependency meaningful instead of dropping it
+		if c.Workers < 2 {
+			c.Workers = 2
+		}
+		for len(c.Cascades) < 2 {
+			c.Cascades = append(c.Cascades, genCascade(rt, 25))
+		}
+	}
+	if c.Dep {
+		c.ECAL = false
+	}
 	return c
 }
 
